@@ -160,3 +160,44 @@ SPECS += [
         props=["C01", "C02", "C06", "C09", "C10", "C14"],
     ),
 ]
+
+HI = lambda j="j": f"num(Rd(c, {j}, 'high'))"
+LO = lambda j="j": f"num(Rd(c, {j}, 'low'))"
+DCU, DCL, DCM = "f'{N}.DCU'", "f'{N}.DCL'", "f'{N}.DCM'"
+SPECS += [
+    IndSpec(
+        "hexital.indicators.donchian.Donchian",
+        params=dict(RV, period=("int", None)),
+        lets=dict(LETS, w="period - 1"),
+        extra_pre=dict(PRE_RV, **{"period>=2": "period >= 2"}),
+        inv={
+            "dict": (f"isdict({R('N')})", ["C05", "C09"]),
+            "presence": (f"iff({R(DCU)} is not None, j >= w) and iff({R(DCL)} is not None, j >= w) and iff({R(DCM)} is not None, j >= w)", ["C05", "C09"]),
+            "types": (f"implies(j >= w, isnum({R(DCU)}) and isnum({R(DCL)}) and isnum({R(DCM)}))", ["C05", "C09"]),
+            "upper-bounds-window-highs": (f"implies(j >= w, forall(j - period + 1, j + 1, lambda t: {HI('t')} <= {NUM(DCU)} + eps))", ["C05", "C10"], {"assume": False}),
+            "upper-is-a-window-high": (f"implies(j >= w, exists(j - period + 1, j + 1, lambda t: Abs({NUM(DCU)} - {HI('t')}) <= eps))", ["C05"], {"assume": False}),
+            "lower-bounds-window-lows": (f"implies(j >= w, forall(j - period + 1, j + 1, lambda t: {LO('t')} >= {NUM(DCL)} - eps))", ["C05", "C10"], {"assume": False}),
+            "lower-is-a-window-low": (f"implies(j >= w, exists(j - period + 1, j + 1, lambda t: Abs({NUM(DCL)} - {LO('t')}) <= eps))", ["C05"], {"assume": False}),
+            "middle-is-mean-of-bounds": (f"implies(j >= w, Abs({NUM(DCM)} - ({NUM(DCU)} + {NUM(DCL)}) / 2) <= 2 * eps)", ["C05", "C10"]),
+            "ordered": (f"implies(j >= w, {NUM(DCL)} <= {NUM(DCM)} and {NUM(DCM)} <= {NUM(DCU)})", ["C10"]),
+        },
+        window="period",
+        props=["C01", "C02", "C05", "C09", "C10", "C14"],
+    ),
+    IndSpec(
+        "hexital.indicators.highest_lowest.HighestLowest",
+        params=dict(RV, period=("int", None)),
+        lets=dict(LETS, HH="f'{N}.high'", LL="f'{N}.low'"),
+        extra_pre=dict(PRE_RV, **{"period>=2": "period >= 2"}),
+        inv={
+            "dict": (f"isdict({R('N')})", ["C05", "C09"]),
+            "types": (f"isnum({R('HH')}) and isnum({R('LL')})", ["C05", "C09"]),
+            "high-bounds-window-highs": (f"forall(Max(0, j - period), j + 1, lambda t: {HI('t')} <= {NUM('HH')} + eps)", ["C05", "C10"], {"assume": False}),
+            "high-is-a-window-high": (f"exists(Max(0, j - period), j + 1, lambda t: Abs({NUM('HH')} - {HI('t')}) <= eps)", ["C05"], {"assume": False}),
+            "low-bounds-window-lows": (f"forall(Max(0, j - period), j + 1, lambda t: {LO('t')} >= {NUM('LL')} - eps)", ["C05", "C10"], {"assume": False}),
+            "low-is-a-window-low": (f"exists(Max(0, j - period), j + 1, lambda t: Abs({NUM('LL')} - {LO('t')}) <= eps)", ["C05"], {"assume": False}),
+        },
+        window="period",
+        props=["C01", "C02", "C05", "C09", "C10", "C14"],
+    ),
+]
